@@ -52,7 +52,11 @@ def run_one(case, r, seed, variant="main"):
     trusted, new = concretise(case, r, seed)
     snap = (copy.deepcopy(trusted), copy.deepcopy(new))
     out, exc, printed = lib.call(lib.cct("authentication").verify_root, trusted, new)
-    return {"variant": variant, "observed": out, "exc": exc, "allowed": case["allowed"],
+    try:
+        mutated = twin_canon(trusted) != twin_canon(snap[0]) or twin_canon(new) != twin_canon(snap[1])
+    except TypeError:
+        mutated = repr(trusted) != repr(snap[0]) or repr(new) != repr(snap[1])
+    return {"variant": variant, "observed": out, "exc": exc, "allowed": case["allowed"], "mutated": mutated,
             "concrete": {"trusted": snap[0], "offered": snap[1]}, "case": case}
 
 
@@ -78,7 +82,7 @@ def _work(args):
         for o in obs:
             res["n"] += 1
             res["accepts"] += o["observed"] == "accept"
-            if lib.family(o["observed"]) not in o["allowed"]:
+            if lib.family(o["observed"]) not in o["allowed"] or o.get("mutated"):
                 res["bad"].append(o)
         trivial = all(v[0] == "absent" for v in case["e"])
         res["hashes"].append((hashlib.sha256(line.encode()).hexdigest()[:16], not trivial))
@@ -93,7 +97,7 @@ def replay(run, tlc_result, opts=None, procs=16):
     lib.cct("authentication")
     accepts = 0
     with mp.get_context("fork").Pool(procs) as pool:
-        it = ((b, run.seed, opts) for b in ve.batches(tlc_result.case_file))
+        it = ((b, run.seed, opts) for b in ve.batches(tlc_result.case_file, every=opts.get("every", 1)))
         for res in pool.imap_unordered(_work, it):
             run.evaluations += res["n"]
             accepts += res["accepts"]
